@@ -161,7 +161,7 @@ theorem toStr_exp_neg (d : Dec) (h : ¬ d.exp ≥ 0) (hlo : Dec.int32Min ≤ d.e
     split
     · rw [List.take_append_drop]; exact natOf_digitsOfNat _
     · rw [natOf_append, natOf_append, natOf_replicate_zero]
-      simp [G.natOf, dsS, natOf_digitsOfNat]
+      simp [G.natOf, dsS]
       exact natOf_digitsOfNat _
   obtain ⟨k, hk⟩ := dropTrailingZerosD_spec fpD
   generalize hfp' : dropTrailingZerosD fpD = fp' at hk
